@@ -11,12 +11,12 @@ type Explorer struct {
 	// Shard/NShards split the search by the index of the first-level subtree (0/1 = everything).
 	Shard, NShards int
 
-	Execs      int
-	Points     int
-	MaxPoints  int
-	Capped     bool
-	Stop       bool // set by the judge to end the search early
-	subtree    int
+	Execs     int
+	Points    int
+	MaxPoints int
+	Capped    bool
+	Stop      bool // set by the judge to end the search early
+	subtree   int
 }
 
 func altCost(p PointRec, alt int) int {
